@@ -83,13 +83,19 @@ struct JSON {
 
             ValueT value{ValueType::Object};
 
+            if (offset >= length) {
+                // Truncated right after '{'.
+                value.Reset();
+                return value;
+            }
+
             if (content[offset] != JSONotation::ECurlyChar) {
                 ObjectT *obj = value.GetObject();
 
                 while (offset < length && (content[offset] == JSONotation::QuoteChar)) {
                     ++offset;
                     const Char_T *str = (content + offset);
-                    SizeT         len = JSONUtils::UnEscape(str, length, stream);
+                    SizeT         len = JSONUtils::UnEscape(str, (length - offset), stream);
 
                     if (len != 0) {
                         offset += len;
@@ -103,7 +109,7 @@ struct JSON {
 
                         StringUtils::TrimLeft(content, offset, length);
 
-                        if (content[offset] == JSONotation::ColonChar) {
+                        if ((offset < length) && (content[offset] == JSONotation::ColonChar)) {
                             ++offset;
                             StringUtils::TrimLeft(content, offset, length);
                             String<Char_T> key{str, len};
@@ -142,6 +148,12 @@ struct JSON {
 
             ValueT value{ValueType::Array};
 
+            if (offset >= length) {
+                // Truncated right after '['.
+                value.Reset();
+                return value;
+            }
+
             if (content[offset] != JSONotation::ESquareChar) {
                 Array<ValueT> *arr = value.GetArray();
 
@@ -175,6 +187,12 @@ struct JSON {
         }
 
         static ValueT parseValue(Stream_T &stream, const Char_T *content, SizeT &offset, const SizeT length) {
+            if (offset >= length) {
+                // Nothing left to read: a value was expected.
+                offset = length;
+                return ValueT{};
+            }
+
             switch (content[offset]) {
                 case JSONotation::SCurlyChar: {
                     ++offset;
